@@ -10,6 +10,7 @@ import (
 	"errors"
 	"fmt"
 	"io"
+	"runtime/debug"
 	"sort"
 	"time"
 
@@ -241,6 +242,7 @@ func pieces() (small, big []piece) {
 
 func main() {
 	r := bx.Start("C05", "model_checking")
+	debug.SetGCPercent(1600) // many short-lived readers on all cores, tiny live heap
 	var err error
 	smallDialect, err = gm.DialectRW(&dialect.Dialect{Version: 3, Messages: common.Dialect.Messages[:3]})
 	if err != nil {
